@@ -92,6 +92,11 @@ def safe(s):
 
 def check(pid, tier='quick', seed=0, shared=None, write_evidence=True, quiet=False):
     t0 = time.time()
+    if shared is None and not os.environ.get('VERIF_WORK_FIXED'):
+        # one work directory per property so that checks of different properties can run concurrently
+        base = os.environ.get('VERIF_WORK', os.path.join(VERIF, 'work'))
+        os.environ['VERIF_WORK'] = os.path.join(base, pid)
+        os.environ['VERIF_WORK_FIXED'] = '1'
     known = load_known()
     open_findings = [f for f in known.get('findings', []) if f['property'] == pid and f.get('status', 'open') == 'open']
     inconclusive = []
